@@ -18,17 +18,33 @@
 (*                       only (FALSE: remembered for following non-func     *)
 (*                       declarations)                                      *)
 (*   ResetPerFunc        scratch state is reset when a function is entered  *)
+(*   AttributePerDecl    what a checker learns about a declaration in a     *)
+(*                       look-ahead (unlabelStmt: "this function contains   *)
+(*                       a goto, leave it alone") is attributed to that     *)
+(*                       declaration (FALSE: to the last function seen - a  *)
+(*                       single pass over the file that never forgets the   *)
+(*                       function it left; a marked function literal in a   *)
+(*                       var declaration then silences the function before) *)
+(* mark: the chunk contains the construct the look-ahead searches for.      *)
+(* WithMarks = FALSE keeps the enumeration of the deeper bound small.       *)
 (* Local: diagnostics of a chunk do not depend on unrelated chunks being    *)
 (* appended, inserted as padding, or on plain functions being reordered.    *)
 (***************************************************************************)
 EXTENDS Naturals, Sequences, FiniteSets, TLC
-CONSTANTS MaxLen, ContinueOnBodyless, EnterPerDecl, ResetPerFunc
+CONSTANTS MaxLen, ContinueOnBodyless, EnterPerDecl, ResetPerFunc, AttributePerDecl, WithMarks
 
 Kinds == {"func", "bodyless", "method", "gen"}
-Chunk(id, k, t, r) == [id |-> id, kind |-> k, trig |-> t, residue |-> r]
+Chunk(id, k, t, r, m) == [id |-> id, kind |-> k, trig |-> t, residue |-> r, mark |-> m]
+MarkDom == IF WithMarks THEN BOOLEAN ELSE {FALSE}
 \* files: chunk i has id i
-Shapes == UNION { [1..n -> Kinds \X BOOLEAN \X BOOLEAN] : n \in 1..MaxLen }
-MkFile(sh) == [i \in DOMAIN sh |-> Chunk(i, sh[i][1], sh[i][2], sh[i][3])]
+Shapes == UNION { [1..n -> Kinds \X BOOLEAN \X BOOLEAN \X MarkDom] : n \in 1..MaxLen }
+MkFile(sh) == [i \in DOMAIN sh |-> Chunk(i, sh[i][1], sh[i][2], sh[i][3], sh[i][4])]
+
+\* the look-ahead: positions of the functions the checker leaves alone
+IsFn(c) == c.kind \in {"func", "method"}
+LastFn(f, i) == LET S == { j \in 1..i : IsFn(f[j]) } IN IF S = {} THEN 0 ELSE CHOOSE j \in S : \A k \in S : k <= j
+Skipped(f) == IF AttributePerDecl THEN { i \in DOMAIN f : IsFn(f[i]) /\ f[i].mark }
+              ELSE { LastFn(f, i) : i \in { j \in DOMAIN f : f[j].mark } } \ {0}
 
 \* the decl loop; state = <<emitted ids, dirty scratch?, lastEnter, stopped>>
 RECURSIVE WalkFrom(_, _, _, _, _)
@@ -39,7 +55,7 @@ WalkFrom(f, i, out, dirty, lastEnter) ==
       LET enter == c.kind # "bodyless" IN
       IF ~enter THEN (IF ContinueOnBodyless THEN WalkFrom(f, i + 1, out, dirty, FALSE) ELSE out)
       ELSE LET d0 == IF ResetPerFunc THEN FALSE ELSE dirty
-               emits == c.trig /\ ~d0                      \* stale scratch makes the checker miss / misreport
+               emits == c.trig /\ ~d0 /\ i \notin Skipped(f)                    \* stale scratch makes the checker miss / misreport
            IN WalkFrom(f, i + 1, IF emits THEN Append(out, c.id) ELSE out, d0 \/ c.residue, TRUE)
     ELSE \* var / const / type declaration: visited by the expr, type-expr and comment walkers
       LET visit == EnterPerDecl \/ lastEnter
@@ -52,9 +68,11 @@ Perms(S) == { p \in [S -> S] : \A a, b \in S : a # b => p[a] # p[b] }
 PlainPos(f) == { i \in DOMAIN f : f[i].kind = "func" }
 \* reorder the plain functions among their own slots
 Reorder(f, p) == [i \in DOMAIN f |-> IF i \in PlainPos(f) THEN f[p[i]] ELSE f[i]]
-Pad == Chunk(0, "gen", FALSE, FALSE)
-PadFunc == Chunk(0, "func", FALSE, FALSE)
-PadBodyless == Chunk(0, "bodyless", FALSE, FALSE)
+Pad == Chunk(0, "gen", FALSE, FALSE, FALSE)
+PadFunc == Chunk(0, "func", FALSE, FALSE, FALSE)
+PadBodyless == Chunk(0, "bodyless", FALSE, FALSE, FALSE)
+PadGenMarked == Chunk(0, "gen", FALSE, FALSE, TRUE)      \* var f = func() { ... goto ... }
+PadFuncMarked == Chunk(0, "func", FALSE, FALSE, TRUE)    \* an unrelated function with a goto
 InsertAt(f, k, c) == SubSeq(f, 1, k) \o <<c>> \o SubSeq(f, k + 1, Len(f))
 
 VARIABLES shape
@@ -64,6 +82,6 @@ Spec == Init /\ [][Next]_shape
 F == MkFile(shape)
 Base == Ids(Walk(F))
 LocalReorder == \A p \in Perms(PlainPos(F)) : Ids(Walk(Reorder(F, p))) = Base
-LocalPad == \A k \in 0..Len(F) : \A c \in {Pad, PadFunc, PadBodyless} : Ids(Walk(InsertAt(F, k, c))) \ {0} = Base
+LocalPad == \A k \in 0..Len(F) : \A c \in {Pad, PadFunc, PadBodyless, PadGenMarked, PadFuncMarked} : Ids(Walk(InsertAt(F, k, c))) \ {0} = Base
 Local == LocalReorder /\ LocalPad
 =============================================================================
